@@ -92,6 +92,12 @@ def run_one(args):
         if ctx.floor_errors:
             return (mid, prop, "B", "analysis-error", ctx.floor_errors[0], [])
         return (mid, prop, "B", "missed", "", [])
+    elif m.kind == "X":
+        # a correct variant on which some check is KNOWN to raise a false VIOLATION (documented limitation, DESIGN 10.5): tracked, not
+        # asserted -- the outcome is reported so that progress (or regress) on these shapes is visible
+        if fails:
+            return (mid, prop, "X", "known-false-alarm", "%s at %s: %s" % (fails[0][0], fails[0][1], fails[0][3]), fails)
+        return (mid, prop, "X", "undecided" if (und or ctx.floor_errors) else "silent", "", und)
     elif m.kind == "U":
         # a correct variant in a shape the rules do not recognise: "undecided" (exit 2) is acceptable, a violation is a false alarm
         if fails:
@@ -154,6 +160,8 @@ def refactor_variants():
             continue
         with open(pp) as f:
             diff = f.read()
+        # refactors/<id>/KIND = "X": a behaviour-preserving variant on which a check is known to raise a false VIOLATION (limitation,
+        # listed in DESIGN 10.5); it is run and its outcome reported, but it is not a self-test obligation
         # refactors/<id>/KIND = "U": a behaviour-preserving variant so far from the pinned shapes (kernels built by a factory, methods
         # delegating to module-level functions) that the checks are only required not to report a VIOLATION; exit 2 is accepted
         kp = os.path.join(d, name, "KIND")
